@@ -148,6 +148,8 @@ type SymEnv struct {
 	elems  map[string]Aff // "base[idx]" -> value stored on this path
 	names  map[types.Object]string
 	namedResults []types.Object
+	makes  map[string][2]Aff
+	copies map[string]string // fresh slice atom -> source whose content it received at creation
 	nCall  int
 	Hook   func(i int, ev Ev, sp *SymPath) // called before each event is executed
 	Self   *types.Func // the function being analysed: a self-recursive call is a re-dispatch, its effects are not applied
@@ -175,6 +177,8 @@ func (e *SymEnv) clone() *SymEnv {
 	}
 	n.nCall = e.nCall
 	n.namedResults = e.namedResults
+	n.makes = e.makes
+	n.copies = e.copies
 	n.OnCall = e.OnCall
 	n.Self = e.Self
 	n.Hook = e.Hook
@@ -361,7 +365,14 @@ func (e *SymEnv) Eval(x ast.Expr) Aff {
 			}
 		}
 		if name == "len" || name == "cap" {
-			return affAtom(name + "(" + e.Eval(v.Args[0]).String() + ")")
+			arg := e.Eval(v.Args[0])
+			if mk, ok := e.makes[arg.String()]; ok {
+				if name == "len" {
+					return mk[0]
+				}
+				return mk[1]
+			}
+			return affAtom(name + "(" + arg.String() + ")")
 		}
 		if e.OnCall != nil {
 			if a, ok := e.OnCall(e, v, name); ok {
@@ -384,7 +395,35 @@ func (e *SymEnv) Eval(x ast.Expr) Aff {
 			return affAtom(name + "(" + strings.Join(as, ",") + ")")
 		}
 		e.nCall++
-		return affAtom(fmt.Sprintf("%s%s(%s)#%d", recv, name, strings.Join(as, ","), e.nCall))
+		res := affAtom(fmt.Sprintf("%s%s(%s)#%d", recv, name, strings.Join(as, ","), e.nCall))
+		if name == "make" && len(v.Args) >= 2 {
+			if e.makes == nil {
+				e.makes = map[string][2]Aff{}
+			}
+			ln := e.Eval(v.Args[1])
+			cp := ln
+			if len(v.Args) >= 3 {
+				cp = e.Eval(v.Args[2])
+			}
+			e.makes[res.String()] = [2]Aff{ln, cp}
+		}
+		if name == "append" && len(v.Args) == 2 && v.Ellipsis != token.NoPos {
+			// append(make([]T, 0, N), xs...): a fresh slice of length len(xs), capacity N, holding a copy of xs
+			if mk, ok := e.makes[as[0]]; ok && mk[0].IsConst() && mk[0].K == 0 {
+				src := e.Eval(v.Args[1])
+				ln := affAtom("len(" + src.String() + ")")
+				if m2, ok := e.makes[src.String()]; ok {
+					ln = m2[0]
+				}
+				e.makes[res.String()] = [2]Aff{ln, mk[1]}
+				if e.copies == nil {
+					e.copies = map[string]string{}
+				}
+				e.copies[res.String()] = src.String()
+			}
+		}
+		e.applyCallEffects(v)
+		return res
 	case *ast.CompositeLit:
 		tn := ""
 		if v.Type != nil {
@@ -407,6 +446,9 @@ func (e *SymEnv) Eval(x ast.Expr) Aff {
 		return affAtom("funclit")
 	case *ast.TypeAssertExpr:
 		return affAtom(e.Eval(v.X).String() + ".(type)")
+	}
+	if tv, ok := p.Info.Types[x]; ok && tv.IsType() {
+		return affAtom(types.TypeString(tv.Type, nil))
 	}
 	return affAtom("?" + p.Str(x))
 }
@@ -661,7 +703,19 @@ func (p *GoProg) execCall(sp *SymPath, env *SymEnv, call *ast.CallExpr, node ast
 	}
 	val := env.Eval(call)
 	sp.Effects = append(sp.Effects, SymEffect{Kind: "call", Target: name, Base: recv, Val: val, Args: args, Node: node, At: at})
-	// side effects of package-local callees on their receiver / pointer arguments
+}
+
+// applyCallEffects models what a package-local callee may do to its receiver and to pointer arguments.
+func (env *SymEnv) applyCallEffects(call *ast.CallExpr) {
+	p := env.p
+	recv := ""
+	if sel, ok := ast.Unparen(call.Fun).(*ast.SelectorExpr); ok {
+		if _, isSel := p.Info.Selections[sel]; isSel {
+			if path, ok := env.lvalPath(sel.X); ok {
+				recv = env.substRoot(path, sel.X)
+			}
+		}
+	}
 	if fn, ok := p.Callee(call).(*types.Func); ok && fn.Pkg() == p.Pkg.Types && fn != env.Self {
 		fd := p.declOf(fn)
 		if recv != "" && fd != nil {
@@ -680,6 +734,19 @@ func (p *GoProg) execCall(sp *SymPath, env *SymEnv, call *ast.CallExpr, node ast
 		}
 		for _, a := range call.Args {
 			if pt, ok := p.Info.TypeOf(a).(*types.Pointer); ok {
+				if _, isStruct := pt.Elem().Underlying().(*types.Struct); !isStruct {
+					// pointer to a scalar/slice: the callee may overwrite it
+					if u, isAddr := ast.Unparen(a).(*ast.UnaryExpr); isAddr && u.Op == token.AND {
+						env.nCall++
+						if id, isID := ast.Unparen(u.X).(*ast.Ident); isID {
+							env.vars[p.ObjOf(id)] = affAtom(fmt.Sprintf("%s@%s#%d", env.nameOf(id), fn.Name(), env.nCall))
+						} else if path, ok := env.lvalPath(u.X); ok {
+							path = env.substRoot(path, u.X)
+							env.fields[path] = affAtom(fmt.Sprintf("%s@%s#%d", path, fn.Name(), env.nCall))
+						}
+					}
+					continue
+				}
 				if _, isStruct := pt.Elem().Underlying().(*types.Struct); isStruct {
 					if path, ok := env.lvalPath(a); ok {
 						path = env.substRoot(path, a)
